@@ -138,8 +138,16 @@ pub fn mutate(r: &mut Rng, w: &mut Wire, m: usize) -> bool {
                 return false;
             }
             let at = *r.pick(&w.avps);
-            let v = if r.bool() { r.range(1, 3) as u16 } else { r.u16b().max(1) };
+            let v = match r.below(3) {
+                0 => r.range(1, 3) as u16,
+                // enterprise numbers seen in the field (Cisco, Microsoft, 3Com, Ascend, Juniper, 3GPP, BBF)
+                1 => *r.pick(&[9u16, 311, 43, 529, 2636, 10415, 3561]),
+                _ => r.u16b().max(1),
+            };
             put16(&mut w.bytes, at + 2, v);
+            if r.bool() {
+                w.bytes[at] &= !0x01; // vendor AVPs are usually not mandatory
+            }
         }
         4 => {
             if w.avps.is_empty() {
@@ -171,9 +179,19 @@ pub fn mutate(r: &mut Rng, w: &mut Wire, m: usize) -> bool {
             if len <= 6 || at + len > n {
                 return false;
             }
+            let pl = len - 6;
+            if r.chance(1, 4) {
+                // a long run of one octet class (continuation octets, lead octets, ...)
+                let class = *r.pick(&[0x80u8, 0xbf, 0xa0, 0xc2, 0xe0, 0xf0, 0xf4, 0xff, 0xc0]);
+                let run = (r.range(1, 70) as usize).min(pl);
+                let start = at + 6 + r.below((pl - run + 1) as u64) as usize;
+                for x in w.bytes[start..start + run].iter_mut() {
+                    *x = class;
+                }
+                return true;
+            }
             let bad = *r.pick(&BAD_UTF8);
             // write at the tail or a random place inside the payload
-            let pl = len - 6;
             let k = bad.len().min(pl);
             let pos = if r.bool() { at + len - k } else { at + 6 + r.below((pl - k + 1) as u64) as usize };
             w.bytes[pos..pos + k].copy_from_slice(&bad[..k]);
@@ -507,4 +525,139 @@ pub fn corpus(r: &mut Rng) -> Vec<Wire> {
         out.push(wire_data(&val::data(r, Some(f), 6)));
     }
     out
+}
+
+/// Inputs at the top of the 16-bit size fields, with the octets they announce really present:
+/// things a generator of "small" cases never builds and an encoder never emits.
+pub enum Big {
+    Msg(Vec<u8>),
+    Avps(Vec<u8>),
+}
+
+fn min_record(r: &mut Rng) -> Vec<u8> {
+    match r.below(4) {
+        0 => raw_record(39, false, 0, &[], true),                           // 6 octets
+        1 => raw_record(9, false, 0, &r.bytes(2), true),                    // 8 octets
+        2 => raw_record(7, false, 0, &r.bytes(1), true),                    // 7 octets
+        _ => raw_record(39, false, 0, &[], r.bool()),
+    }
+}
+
+fn tail_record(r: &mut Rng) -> Vec<u8> {
+    match r.below(7) {
+        0 => message_type_record(*r.pick(&[5u16, 13, 17, 0])),              // unknown message type
+        1 => raw_record(*r.pick(&[20u16, 40, 65535]), false, 0, &r.bytes_range(0, 8), true),
+        2 => raw_record(29, false, 0, &[0, 6], true),                        // bad proxy authen type
+        3 => raw_record(1, false, 0, &[0, 1, 0, 9], true),                   // bad error type
+        4 => {
+            // length field claiming more than is there
+            let mut rec = raw_record(7, false, 0, &r.bytes_range(1, 10), true);
+            let claim = rec.len() + r.range(1, 90) as usize;
+            rec[0] = (rec[0] & 0x3f) | (((claim >> 8) & 3) as u8) << 6;
+            rec[1] = claim as u8;
+            rec
+        }
+        5 => raw_record(r.range(0, 39) as u16, r.bool(), *r.pick(&[9u16, 311, 1]), &r.bytes_range(0, 8), r.bool()),
+        _ => encode::avp(&val::any_avp(r, 40)).unwrap(),
+    }
+}
+
+pub fn big_input(r: &mut Rng) -> (Big, &'static str) {
+    match r.below(7) {
+        0 | 1 => {
+            // data message, offset size near 0xffff with the pad present (or one octet short)
+            let has_l = r.chance(2, 3);
+            let has_s = r.bool();
+            let prio = r.bool();
+            let osz = if r.chance(3, 4) { r.range(65_500, 65_535) as usize } else { r.range(60_000, 65_535) as usize };
+            let header = 2 + 4 + if has_l { 2 } else { 0 } + if has_s { 4 } else { 0 } + 2;
+            let w: u16 = (2 << 4) | if has_l { BIT_L } else { 0 } | if has_s { BIT_S } else { 0 } | BIT_O | if prio { BIT_P } else { 0 };
+            let mut b = vec![(w >> 8) as u8, w as u8];
+            if has_l {
+                let l: u16 = match r.below(5) {
+                    0 => header as u16,
+                    1 => (header + r.range(1, 16) as usize) as u16,
+                    2 => ((header + osz) & 0xffff) as u16,
+                    3 => ((header + osz + 4) & 0xffff) as u16,
+                    _ => r.u16b(),
+                };
+                b.extend_from_slice(&l.to_be_bytes());
+            }
+            b.extend_from_slice(&r.bytes(4));
+            if has_s {
+                b.extend_from_slice(&r.bytes(4));
+            }
+            b.extend_from_slice(&(osz as u16).to_be_bytes());
+            let present = match r.below(4) {
+                0 => osz.saturating_sub(1),
+                1 => osz,
+                _ => osz + r.range(1, 12) as usize,
+            };
+            let pad = r.bytes(present);
+            b.extend_from_slice(&pad);
+            (Big::Msg(b), "data_big_offset")
+        }
+        2 => {
+            // bare AVP list beyond 64 KiB made of maximal records, then one more record
+            let n = r.range(64, 70) as usize;
+            let mut b = Vec::with_capacity(n * 1023 + 128);
+            for _ in 0..n {
+                let attr = *r.pick(&[7u16, 11, 26, 30, 37]);
+                b.extend_from_slice(&raw_record(attr, false, 0, &vec![0x5a; 1017], true));
+            }
+            if r.bool() {
+                b.extend_from_slice(&raw_record(7, false, 0, &r.bytes_range(1, 80), true));
+            }
+            b.extend_from_slice(&tail_record(r));
+            (Big::Avps(b), "avps_big_records")
+        }
+        3 => {
+            // bare AVP list of minimal records around the 8191 / 10922 counts, then a tail
+            let n = *r.pick(&[8_189usize, 8_190, 8_191, 8_192, 8_193, 10_919, 10_920, 10_921, 10_922, 10_923, 10_930, 12_000]);
+            let mut b = Vec::with_capacity(n * 8 + 64);
+            let six = r.bool();
+            for _ in 0..n {
+                if six {
+                    b.extend_from_slice(&[0x01, 0x06, 0, 0, 0, 39]);
+                } else {
+                    b.extend_from_slice(&min_record(r));
+                }
+            }
+            b.extend_from_slice(&tail_record(r));
+            if r.bool() {
+                b.extend_from_slice(&tail_record(r));
+            }
+            (Big::Avps(b), "avps_many_records")
+        }
+        4 | 5 => {
+            // control message close to 65535 octets filled with minimal records, faults near the end
+            let mut body = message_type_record(1);
+            let target = 65_535 - 12 - r.range(0, 40) as usize;
+            let mut count = 1;
+            while body.len() + 8 <= target.saturating_sub(60) {
+                body.extend_from_slice(&[0x01, 0x06, 0, 0, 0, 39]);
+                count += 1;
+            }
+            let _ = count;
+            for _ in 0..r.range(1, 3) {
+                let t = tail_record(r);
+                if body.len() + t.len() <= 65_535 - 12 {
+                    body.extend_from_slice(&t);
+                }
+            }
+            (Big::Msg(control_around(&body, r.u16b(), r.u16b(), r.u16b(), r.u16b())), "control_many_records")
+        }
+        _ => {
+            // control message with 63 maximal records
+            let mut body = message_type_record(1);
+            for _ in 0..63 {
+                body.extend_from_slice(&raw_record(7, false, 0, &vec![0x41; 1017], true));
+            }
+            let t = tail_record(r);
+            if body.len() + t.len() <= 65_535 - 12 {
+                body.extend_from_slice(&t);
+            }
+            (Big::Msg(control_around(&body, 1, 2, 3, 4)), "control_big_records")
+        }
+    }
 }
